@@ -222,7 +222,7 @@ def query_kind(case, q, W=None):
 # --------------------------------------------------------------------------------------
 
 def gen_cases(ctx, count, n_range, k_range, weakly_modes, want=("ok",), q_per=6, consts=0.05, depth=2,
-              outside_sig=0.1, max_tries=40, ties=0.0, deep=0.12, flat=0.06):
+              outside_sig=0.1, max_tries=40, ties=0.0, deep=0.12, flat=0.06, conj=0.06):
     """generate cases whose base status (by brute force classification) is in `want`"""
     rng = ctx.rng
     cases = []
@@ -237,6 +237,10 @@ def gen_cases(ctx, count, n_range, k_range, weakly_modes, want=("ok",), q_per=6,
         if rng.random() < ties and n_range[1] >= 4:
             n = nq = rng.randint(max(4, n_range[0]), n_range[1])
             conds, queries = core.gen_tie_case(rng, n)
+        elif rng.random() < conj and n_range[1] >= 3:
+            n = nq = rng.randint(max(3, n_range[0]), n_range[1])
+            conds, queries = core.gen_conj_case(rng, n)
+            queries = queries[:q_per]
         elif rng.random() < flat and n_range[1] >= 3:
             n = nq = rng.randint(max(3, n_range[0]), n_range[1])
             conds, queries = core.gen_flat_case(rng, n)
